@@ -175,3 +175,64 @@ extern "C" void cc_final()
     verif_assert(ran <= 1, "a callback runs at most once");
     verif_cover(0);
 }
+
+// ---- same race, callback kept alive until the end: it must have run exactly once -----------------------
+static pika::stop_callback<functor>* kept;
+extern "C" void cck_init() { cc_init(); }
+extern "C" void cck_thread_0() { cc_thread_0(); }
+extern "C" void cck_thread_1() { cc_thread_1(); }
+extern "C" void cck_thread_2() { kept = new pika::stop_callback<functor>(src->get_token(), functor{}); }
+extern "C" void cck_final()
+{
+    verif_assert(r_true == 1, "exactly one of the racing request_stop calls returns true");
+    verif_assert(ran == 1, "a callback that stays registered runs exactly once when stop is requested");
+    verif_cover(0);
+}
+
+// ---- two callbacks; the one that is next in line is destroyed while request_stop runs the first ----------------
+struct functor2;
+static pika::stop_callback<functor2>* cb2[2];
+static int ran2[2], dead2[2], mode2;
+struct functor2
+{
+    int id;
+    void operator()() const noexcept
+    {
+        verif_assert(!dead2[id], "a callback never starts after its stop_callback destructor has returned");
+        ++ran2[id];
+        if (mode2 == 1 && id == 1)
+        {
+            delete cb2[0];    // deregistration of another callback from inside a running callback
+            dead2[0] = 1;
+        }
+        verif_yield();
+    }
+};
+extern "C" void cc2_init()
+{
+    src = new stop_source();
+    for (int t = 0; t < 2; ++t) verif_slot_is_task[t] = (unsigned char) verif_nondet_range(0, 1);
+    mode2 = (int) verif_nondet_range(0, 1);
+    cb2[0] = new pika::stop_callback<functor2>(src->get_token(), functor2{0});
+    cb2[1] = new pika::stop_callback<functor2>(src->get_token(), functor2{1});    // head of the list: runs first
+}
+extern "C" void cc2_thread_0()
+{
+    if (src->request_stop()) ++r_true;
+}
+extern "C" void cc2_thread_1()
+{
+    if (mode2 == 0)
+    {
+        delete cb2[0];
+        dead2[0] = 1;
+    }
+}
+extern "C" void cc2_final()
+{
+    verif_assert(r_true == 1, "the single request_stop call returns true");
+    verif_assert(ran2[1] == 1, "the callback that stays registered runs exactly once");
+    verif_assert(ran2[0] <= 1, "a callback runs at most once");
+    if (mode2 == 1) verif_assert(ran2[0] == 0, "a callback destroyed before its turn never runs");
+    verif_cover(0);
+}
